@@ -313,6 +313,7 @@ type DeployedRun struct {
 
 type DeployedDriveOpts struct {
 	MinClients, MaxClients int
+	MaxOps                 int // per client (default 4)
 	StepChoices            []int
 	// OnCommit is called after every committed attempt; a non-empty string is a violation.
 	OnCommit func(run *DeployedRun, in *sched.Instance, st sched.Step) string
@@ -344,7 +345,11 @@ func DriveDeployed(t *rapid.T, dopt DeployedDriveOpts) (*DeployedRun, string) {
 	keys := []string{"k1", "k2"}[:rapid.IntRange(1, 2).Draw(t, "keys")]
 	tok := 0
 	for c := 0; c < nc; c++ {
-		for i, m := 0, rapid.IntRange(1, 4).Draw(t, "ops"); i < m; i++ {
+		maxOps := dopt.MaxOps
+		if maxOps == 0 {
+			maxOps = 4
+		}
+		for i, m := 0, rapid.IntRange(1, maxOps).Draw(t, "ops"); i < m; i++ {
 			key := keys[rapid.IntRange(0, len(keys)-1).Draw(t, "key")]
 			if rapid.IntRange(0, 9).Draw(t, "isput") < 6 {
 				tok++
@@ -371,6 +376,8 @@ func DriveDeployed(t *rapid.T, dopt DeployedDriveOpts) (*DeployedRun, string) {
 		all = append(all, g...)
 	}
 	all = append(all, d.CInsts...)
+	// nemesis: the leader crashes (with this probability per commit of its) once it has committed something, if a crash is still allowed
+	leaderCrashPct := rapid.SampledFrom([]int{0, 0, 2, 10}).Draw(t, "crash-leader-after-commit")
 	for step := 0; step < budget; {
 		for s := 1; s <= n; s++ {
 			if at, ok := crashAt[s]; ok && step >= at && !d.Crashed[s] {
@@ -430,6 +437,15 @@ func DriveDeployed(t *rapid.T, dopt DeployedDriveOpts) (*DeployedRun, string) {
 				if dopt.OnCommit != nil {
 					if msg := dopt.OnCommit(run, in, st); msg != "" {
 						return run, msg
+					}
+				}
+				if node := d.NodeOf(in); leaderCrashPct > 0 && node <= n && len(run.Crashes)+len(crashAt) < (n-1)/2+0 && !d.Crashed[node] {
+					sh := d.Shadow[node-1]
+					if sh["state"].AsString() == "leader" && sh["commitIndex"].AsNumber() > 0 && rapid.IntRange(0, 99).Draw(t, "crash-leader-now") < leaderCrashPct {
+						d.Crashed[node] = true
+						run.Crashes = append(run.Crashes, node)
+						fmt.Fprintf(&run.Hist, "-- leader %d crashes after a commit (step %d)\n", node, step)
+						b = burst
 					}
 				}
 			case sched.Aborted:
